@@ -114,7 +114,11 @@ def exh1(ctx: Ctx) -> List[Ob]:
     # variants of the level walker
     want = {"_iter_level_rtl": ("True", "False"), "_iter_zigzag": ("False", "True"), "_iter_zigzag_rtl": ("True", "True")}
     for name, (rv, tg) in want.items():
-        f = m.func(f"Node.{name}")
+        f = m.func(f"Node.{name}", required=False)
+        if f is None:
+            obs.append(ctx.ob("EXH-1", ["C06"], "node:Node", f"{name} = _iter_level(revert={rv}, toggle={tg})", None, False,
+                              f"walker Node.{name} is missing: the method it served is unsupported"))
+            continue
         calls = [c for c in ctx.env.calls_in[f] if any(g.qualname == "Node._iter_level" for g, _ in ctx.env.callees(f, c))]
         ok = False
         got = "no call of _iter_level"
@@ -295,9 +299,13 @@ def sib_iter(ctx: Ctx) -> List[Ob]:
     # iterator
     f = m.func("Node.iterator")
     body = f.body
-    desc = _top_index(body, lambda st: isinstance(st, ast.Expr) and isinstance(st.value, ast.YieldFrom) and "handler" in norm(st.value))
+    hv = None
+    for n in iter_own(f.node):
+        if isinstance(n, ast.Assign) and isinstance(n.value, ast.Call) and norm(n.value.func) == "getattr" and isinstance(n.targets[0], ast.Name):
+            hv = n.targets[0].id
+    desc = _top_index(body, lambda st: isinstance(st, ast.Expr) and isinstance(st.value, ast.YieldFrom) and hv is not None and norm(st.value.value) == f"{hv}()")
     if len(desc) != 1:
-        raise AnalysisError("Node.iterator: `yield from handler()` not found")
+        raise AnalysisError("Node.iterator: `yield from <selected walker>()` not found")
     def self_emit(st, op):
         if not isinstance(st, ast.If):
             return False
@@ -316,6 +324,10 @@ def sib_iter(ctx: Ctx) -> List[Ob]:
                       "" if len(ys) == 3 else f"{len(ys)} yield statements: a node would be emitted twice or never"))
     # visit
     f = m.func("Node.visit")
+    hv = None
+    for n in iter_own(f.node):
+        if isinstance(n, ast.Assign) and isinstance(n.value, ast.Call) and norm(n.value.func) == "getattr" and isinstance(n.targets[0], ast.Name):
+            hv = n.targets[0].id
     tries = [n for n in iter_own(f.node) if isinstance(n, ast.Try) and any(h.type is not None and norm(h.type) == "StopTraversal" for h in n.handlers)]
     ok = len(tries) == 1
     obs.append(ctx.ob("SIB-ITER", ["C06"], f, "visit: one StopTraversal handler around the whole traversal", None, ok,
@@ -360,7 +372,7 @@ def sib_iter(ctx: Ctx) -> List[Ob]:
         if len(loop) == 1:
             lp = tb[loop[0]]
             ok = len(lp.body) == 1 and isinstance(lp.body[0], ast.Expr) and isinstance(lp.body[0].value, ast.Call) \
-                and norm(lp.body[0].value.func) == "handler" and [norm(a) for a in lp.body[0].value.args] == [norm(lp.target), "callback", "memo"]
+                and norm(lp.body[0].value.func) == hv and [norm(a) for a in lp.body[0].value.args] == [norm(lp.target), "callback", "memo"]
             obs.append(ctx.ob("SIB-ITER", ["C06"], f, "visit: each child is handed to the selected walker with callback and memo", lp, ok,
                               "" if ok else "every child branch must be walked once by the method's walker"))
         # level-order branch
@@ -415,15 +427,29 @@ def exh2(ctx: Ctx) -> List[Ob]:
             chain = _if_chain(st)
     if chain is None:
         raise AnalysisError("call_traversal_cb: result dispatch chain not found")
+    # names: fn = first parameter; res = the variable holding fn(node, memo)
+    fnp, ndp, mmp = f.positional_params()[:3]
+    resv = None
+    for st in tr.body:
+        if isinstance(st, ast.Assign) and isinstance(st.value, ast.Call) and norm(st.value) == f"{fnp}({ndp}, {mmp})" and isinstance(st.targets[0], ast.Name):
+            resv = st.targets[0].id
+    if resv is None:
+        raise AnalysisError("call_traversal_cb: the callback invocation `res = fn(node, memo)` was not found")
+
+    def canon(t: str) -> str:
+        import re
+
+        return re.sub(rf"\b{re.escape(resv)}\b", "res", t)
+
     cases: Dict[str, str] = {}
     for test, body in chain:
-        act = _action(body)
+        act = canon(_action(body))
         if test is None:
             cases["<else>"] = act
             continue
         ts = test.values if isinstance(test, ast.BoolOp) and isinstance(test.op, ast.Or) else [test]
         for t in ts:
-            cases[norm(t)] = act
+            cases[canon(norm(t))] = act
     want = {
         "res is None": ("return None", "no verdict: continue"),
         "res is SkipBranch": ("return False", "SkipBranch class returned"),
@@ -448,10 +474,11 @@ def exh2(ctx: Ctx) -> List[Ob]:
     obs.append(ctx.ob("EXH-2", ["C06"], f, "raised SkipBranch -> return False", None, ok, "" if ok else "raising SkipBranch must skip the branch"))
     h = hs.get("StopIteration")
     ok = h is not None and h.name is not None and _action(h.body).startswith(f"raise StopTraversal({h.name}.value)")
+    # (the carried value must travel: `raise StopTraversal` without it would make visit() return None)
     obs.append(ctx.ob("EXH-2", ["C06"], f, "raised StopIteration -> StopTraversal(e.value)", None, ok, "" if ok else "StopIteration must stop the traversal and carry its value"))
     ok = not any(t in hs for t in ("StopTraversal", "IterationControl", "Exception", "BaseException", ""))
     obs.append(ctx.ob("EXH-2", ["C06"], f, "raised StopTraversal propagates to visit()", None, ok, "" if ok else "the normaliser must not swallow the stop signal"))
-    call0 = [st for st in tr.body if isinstance(st, ast.Assign) and isinstance(st.value, ast.Call) and norm(st.value) == "fn(node, memo)"]
+    call0 = [st for st in tr.body if isinstance(st, ast.Assign) and isinstance(st.value, ast.Call) and norm(st.value) == f"{fnp}({ndp}, {mmp})"]
     obs.append(ctx.ob("EXH-2", ["C06"], f, "the callback is called once as fn(node, memo)", None, len(call0) == 1 and tr.body.index(call0[0]) == 0,
                       "" if call0 else "callback invocation not found"))
 
@@ -468,8 +495,9 @@ def exh2(ctx: Ctx) -> List[Ob]:
     h = hs.get("StopIteration")
     ok = h is not None and h.name is not None and _action(h.body) == f"return StopTraversal({h.name}.value)"
     obs.append(ctx.ob("EXH-2", ["C08"], f, "raised StopIteration -> StopTraversal verdict", None, ok, "" if ok else "StopIteration must end the scan"))
-    ok = any(isinstance(st, ast.Assign) and norm(st.value) == "fn(node)" for st in tr.body) and any(
-        isinstance(st, ast.Return) and norm(st.value) == "res" for st in f.body)
+    fnp2, ndp2 = f.positional_params()[:2]
+    asg = [st for st in tr.body if isinstance(st, ast.Assign) and norm(st.value) == f"{fnp2}({ndp2})" and isinstance(st.targets[0], ast.Name)]
+    ok = len(asg) == 1 and any(isinstance(st, ast.Return) and st.value is not None and norm(st.value) == asg[0].targets[0].id for st in f.body)
     obs.append(ctx.ob("EXH-2", ["C08"], f, "the predicate's own result is passed through", None, ok, "" if ok else "the verdict must be the predicate's return value"))
 
     # who may call user callbacks of the traversal / predicate kind
@@ -479,11 +507,16 @@ def exh2(ctx: Ctx) -> List[Ob]:
         if g.qualname in ("call_traversal_cb", "call_predicate"):
             continue
         for c in ctx.env.calls_in[g]:
-            if isinstance(c.func, ast.Name):
+            if isinstance(c.func, ast.Name) and g.module in ("node", "tree", "typed_tree"):
                 sc, bs = ctx.env.scope(g).resolve(c.func.id)
                 for b in bs:
-                    if b.kind == "param" and b.ann is not None and norm(b.ann).replace("Optional[", "").rstrip("]").split(" | ")[0] in (
-                            "TraversalCallbackType", "PredicateCallbackType") and c.func.id in ("callback", "predicate"):
+                    if b.kind != "param":
+                        continue
+                    ann = norm(b.ann) if b.ann is not None else ""
+                    typed = any(t in ann for t in ("TraversalCallbackType", "PredicateCallbackType"))
+                    # un-annotated helpers (_visit_pre(callback, memo)) are matched by parameter name
+                    named = b.ann is None and c.func.id in ("callback", "predicate")
+                    if (typed and "match" not in c.func.id) or named:
                         offenders.append((g, c))
         for c in ctx.env.calls_in[g]:
             if isinstance(c.func, ast.Name) and c.func.id in ("call_traversal_cb", "call_predicate"):
